@@ -26,7 +26,8 @@ type c39Case struct {
 }
 
 var c39States = []string{"missing", "empty", "random", "text", "pem-public", "pem-unknown", "pem-corrupt", "valid", "valid-trailing",
-	"directory", "notdir-parent", "dangling-symlink", "symlink-loop", "symlink-valid", "long-name", "missing-parent"}
+	"directory", "notdir-parent", "dangling-symlink", "symlink-loop", "symlink-valid", "long-name", "missing-parent",
+	"pem-keydata-len", "pem-keydata-len", "pem-keytype-other", "pem-key-96", "pem-key-96-mismatch"}
 
 func genC39(t *rapid.T) c39Case {
 	return c39Case{
@@ -91,6 +92,30 @@ func checkC39(c c39Case) (o vstat.Outcome) {
 	case "valid":
 		write(validPEM)
 		expect = "same"
+	case "pem-keydata-len":
+		// the right PEM type around a well-formed key message whose key material is cut to 1..64 bytes (e.g. a bare seed)
+		raw, _ := k.Raw()
+		n := len(c.Raw)
+		write(pem.EncodeToMemory(&pem.Block{Type: keypem.PrivPemType, Bytes: append([]byte{0x08, 0x01, 0x12, byte(n)}, raw[:n]...)}))
+		if n == len(raw) {
+			expect = "same"
+		}
+	case "pem-keytype-other":
+		raw, _ := k.Raw()
+		kt := []byte{0, 2, 3, 7}[len(c.Raw)%4]
+		write(pem.EncodeToMemory(&pem.Block{Type: keypem.PrivPemType, Bytes: append([]byte{0x08, kt, 0x12, byte(len(raw))}, raw...)}))
+	case "pem-key-96", "pem-key-96-mismatch":
+		// the legacy 96-byte form: key followed by a redundant copy of the public half
+		raw, _ := k.Raw()
+		pub, _ := k.GetPublic().Raw()
+		if c.State == "pem-key-96-mismatch" {
+			pub = append([]byte{}, pub...)
+			pub[len(c.Raw)%32] ^= 1
+		} else {
+			expect = "same"
+		}
+		data := append(append([]byte{}, raw...), pub...)
+		write(pem.EncodeToMemory(&pem.Block{Type: keypem.PrivPemType, Bytes: append([]byte{0x08, 0x01, 0x12, byte(len(data))}, data...)}))
 	case "valid-trailing":
 		write(append(append([]byte{}, validPEM...), c.Raw...))
 		expect = "same"
